@@ -1029,6 +1029,20 @@ impl StoreEnv {
                 fs::write(&p, b"\x00\xffnot json at all{{{\n\x01\x02garbage\n").is_ok()
             }
             "empty" => p.exists() && fs::write(&p, b"").is_ok(),
+            "unline" => {
+                // a line whose newline never reached the disk and onto which the next append was glued: the newline nearest
+                // to the given per-mille of the file (not the last one) is removed
+                let Ok(bytes) = fs::read(&p) else { return false };
+                let pm = get_u64(op, "at_pm").unwrap_or(900) as usize;
+                let target = bytes.len() * pm / 1000;
+                let body_end = bytes.len().saturating_sub(1);
+                let before = bytes[..target.min(body_end)].iter().rposition(|b| *b == b'\n');
+                let after = bytes[target.min(body_end)..body_end].iter().position(|b| *b == b'\n').map(|i| i + target.min(body_end));
+                let Some(at) = before.or(after) else { return false };
+                let mut out = bytes[..at].to_vec();
+                out.extend_from_slice(&bytes[at + 1..]);
+                fs::write(&p, out).is_ok()
+            }
             "append_gap" => {
                 // a whole, well-formed frame of another stream whose seq leaves a gap (what an earlier failed session
                 // append leaves behind): validated replay of the store fails from here on
